@@ -16,7 +16,15 @@
      src/server/conn/tls/acceptor.rs  the handshake is not in the accept path: a TLS connection is an
                               ordinary connection whose first bytes are the handshake
    What hyper does with a connection after graceful_shutdown / garbage / a handler error is oracle O5:
-   it is written down here as observed and compared on every correspondence case.
+   it is written down here as observed (hyper 1.6) and compared on every correspondence case:
+   h1 told while fresh or idle closes at once; told with a cut FIRST head it waits for the head and
+   serves it, with a cut head on a kept-alive connection it closes ([c_kept]); told with running
+   exchanges it finishes them and closes; h2 the same per stream; a handler error ends an h1
+   connection and only resets the stream on h2; an HTTP/2-only server that has not yet seen the
+   complete client preface only notes close_pending and stays open ([h2silent], known finding D18).
+   Environment rules shared with the harness: connection id = order of the EConnect events; actions
+   on a missing / gone / closed connection do nothing; HTTP/1 clients have one request at a time; once
+   the watch is closed no new request is begun; every action on a connection settles first.
 
    One run = a list of environment events [ev]; the model emits the observable trace [oev].
    Everything is a function [state -> state]; the trace is carried in the state (newest first). *)
